@@ -178,7 +178,8 @@ mutual
 def absElement : Nat → CST → Item
   | 0, _ => .elem ⟨none, []⟩ [] []
   | f+1, c =>
-    let ks := c.kidsL
+    -- `element` delegates to `element_body` behind the recursion-depth guard
+    let ks := match c.kidsL with | [(n, b)] => if n == N.element_body then b.kidsL else c.kidsL | l => l
     match findL N.empty_entity_tag ks with
     | some t => let (n, as) := absTag t; .elem n as []
     | none =>
@@ -300,6 +301,18 @@ def absMisc (c : CST) : Option TopItem :=   -- body of `misc`
   | [(n, b)] => if n == N.comment then some (.comment (absComment b))
                 else if n == N.pi then (let (t, d) := absPI b; some (.pi t d)) else none
   | _ => none
+
+mutual
+/-- element nesting depth of a tree (number of nested `element` nodes) -/
+def CST.elemDepth : CST → Nat
+  | .leaf _ => 0
+  | .node n c => if n == N.element then c.elemDepth + 1 else c.elemDepth
+  | .seq ks => elemDepthL ks
+  | .many ks => elemDepthL ks
+def elemDepthL : List CST → Nat
+  | [] => 0
+  | c :: cs => max c.elemDepth (elemDepthL cs)
+end
 
 def absProlog : List (Nat × CST) → Except XErr (List TopItem)
   | [] => .ok []
